@@ -39,7 +39,9 @@ def make_curve(rng, integer=False, small=False):
             "integer": integer, "piezo": rng.random() < 0.4,
             # quantised (staircase) height set-point: runs of equal neighbouring values; instrument segment flag
             # switching a few samples before / after the deepest point
-            "hquant": 0, "segshift": 0}
+            "hquant": 0, "segshift": 0,
+            # indentation depth below the contact point: micrometres, or a few nanometres (stiff samples)
+            "depth": rng.choice([1.0e-6, 1.0e-6, 1.0e-6, 8e-9, 3e-9])}
     special = rng.choice(["none", "none", "hquant", "segshift"])
     if special == "hquant":
         meta.update(hquant=rng.choice([3, 8]), hnoise=0)
@@ -54,7 +56,7 @@ def build_curve(meta):
     p = fitlib.truth_params(meta["model"], prng, cp=0.0)
     p["baseline"].set(value=0.0)
     n_app, n_ret, lag = meta["n_app"], meta["n_ret"], meta["lag"]
-    depth = 1.0e-6
+    depth = meta.get("depth", 1.0e-6)
     zmax = depth * meta["bf"] / (1 - meta["bf"])
     n = n_app + n_ret
     tip_a = np.linspace(zmax, -depth, n_app)
@@ -274,6 +276,8 @@ PLAN = [
     ("correct_split_approach_retract", ["compute_tip_position"], [{}]),
     ("smooth_height", [], [{}]),
     ("smooth_height", ["compute_tip_position"], [{}]),
+    # tip-sample separation after another step has already written the height column
+    ("compute_tip_position", ["smooth_height"], [{}]),
     ("correct_force_offset", ["compute_tip_position", "correct_tip_offset", "correct_force_slope"], [{}]),
     # a step listed a second time, after another step has invalidated its first result
     ("correct_force_offset", ["compute_tip_position", "correct_force_offset", "correct_tip_offset",
